@@ -202,8 +202,18 @@ CHECKS['C15'] = dict(
          'reversed event unless all are; the stub is more liberal than CPython (ints), hence the cross-process confirmation step.',
     design='DESIGN.md section 2 C15')
 
+CHECKS['C07'] = dict(
+    technique='bounded symbolic execution (z3, own executor) over the shape of the package, the number of loop iterations instantiated before the reload and the number of store/load cycles; real loader, real instance writer and real reload on every path',
+    text='Reduced scope (first declared not applicable): only the shape is symbolic - FlowIR family (replication, second platform, selected platform, 0-2 user '
+         'variable files) and the DoWhile document shapes of C05, 0..2 (thorough 0..11) iterations instantiated with store_flowir_to_disk, 1-2 store/load '
+         'cycles, reload with or without rewriting the instance files. The live graph and the graph reloaded with is_instance=True must agree on '
+         'components, resolved configurations, data references and DoWhile state; user variables must have taken effect; a further load+store must '
+         'leave conf/flowir_instance.yaml unchanged as a description (components compared as a set). Exhaustive within the family.',
+    note='PyYAML and the file system are real and nothing below the shape is symbolic (each path is one concrete package); the configuration layer is driven '
+         'directly (Experiment / ExperimentInstanceDirectory construction is outside); graph edges that do not follow from references are not compared.',
+    design='DESIGN.md section 2 C07')
+
 NOT_APPLICABLE = {
-    'C07': 'round trip through the real file system, PyYAML (C) and Experiment construction: nothing on the path can be made symbolic; the technique would degenerate to example testing',
 }
 NOT_YET = 'check not built yet in this session (planned, see DESIGN.md)'
 
